@@ -534,7 +534,19 @@ func (mi *muxInstance) serveHTTP(stdw http.ResponseWriter, stdr *http.Request) {
 func (mi *muxInstance) search(req *httpprot.Request) *route {
 	headerMismatch, methodMismatch := false, false
 
+	// ipDependent becomes true when the rest of the search depends on the
+	// client having passed the IP filter of a rule which is not part of the
+	// result. Such a result must not be cached, as a cache hit only checks
+	// the IP filter chain of the cached path.
+	ipDependent := false
+
 	ip := req.RealIP()
+
+	// The server level IP filter applies to all requests, no matter the
+	// route is cached or not.
+	if !allowIP(mi.ipFilter, ip) {
+		return forbidden
+	}
 
 	// The key of the cache is req.Host + req.Method + req.URL.Path,
 	// and if a path is cached, we are sure it does not contain any
@@ -550,10 +562,6 @@ func (mi *muxInstance) search(req *httpprot.Request) *route {
 		if r.path.ipFilterChain.Allow(ip) {
 			return r
 		}
-		return forbidden
-	}
-
-	if !allowIP(mi.ipFilter, ip) {
 		return forbidden
 	}
 
@@ -580,7 +588,7 @@ func (mi *muxInstance) search(req *httpprot.Request) *route {
 			// no path with headers has been skipped before: for another
 			// request with the same key, the headers could match that path.
 			if len(path.headers) == 0 {
-				if !headerMismatch {
+				if !headerMismatch && !ipDependent {
 					r = &route{code: 0, path: path}
 					mi.putRouteToCache(req, r)
 				}
@@ -595,6 +603,12 @@ func (mi *muxInstance) search(req *httpprot.Request) *route {
 
 			return &route{code: 0, path: path}
 		}
+
+		// No path of this rule is the result, but the client had to pass
+		// the IP filter of the rule to get here.
+		if host.ipFilter != nil {
+			ipDependent = true
+		}
 	}
 
 	if headerMismatch {
@@ -602,11 +616,15 @@ func (mi *muxInstance) search(req *httpprot.Request) *route {
 	}
 
 	if methodMismatch {
-		mi.putRouteToCache(req, methodNotAllowed)
+		if !ipDependent {
+			mi.putRouteToCache(req, methodNotAllowed)
+		}
 		return methodNotAllowed
 	}
 
-	mi.putRouteToCache(req, notFound)
+	if !ipDependent {
+		mi.putRouteToCache(req, notFound)
+	}
 	return notFound
 }
 
